@@ -29,23 +29,23 @@ type c12Case struct {
 	Via string `json:"via,omitempty"`
 }
 
-var c12Vias = []string{"add", "sub", "mul", "negate", "invert", "cmove0", "cmove1", "set", "one", "sqrtratio", "parse32", "parse24", "wide48", "square", "exp"}
+var c12Vias = []string{"add", "sub", "mul", "negate", "invert", "cmove0", "cmove1", "set", "one", "sqrtratio", "parse32", "parse24", "wide48", "square"}
 
 func init() {
 	register(&mon.Prop{
 		ID:      "C12",
 		Flavour: "plain",
-		Rule: "cases = (op, operands, aliasing of output with inputs) for add, sub, mul, square, neg, invert, sqrt_ratio, sgn0, is_zero, equals, cmove(0/1), set, one, bytes, the 32-byte parser, the 24-byte parser, the 48-byte wide reduction and x^((p-3)/4): " +
+		Rule: "cases = (op, operands, aliasing of output with inputs) for add, sub, mul, square, neg, invert, sqrt_ratio, sgn0, is_zero, equals, cmove(0/1), set, one, bytes, the 32-byte parser, the 24-byte parser, the 48-byte wide reduction: " +
 			"operands from the structured list mod p in the canonical domain and Montgomery-domain structured values (stored limbs 0,1,p-1,2^k,2^k±1,2^256-p±1,p with one limb perturbed), " +
 			"operand pairs whose stored forms sum/differ to p-1,p,p+1,2^256-1,2^256,2^256+1,0,1 (pre-reduction values in [p,2^256) that uniform sampling meets with probability 2^-223), limb-structured 4-tuples, PRNG; " +
 			"parser inputs p-40..p+40, p with each limb perturbed, 2^256-1; 48-byte inputs k*p±d, halves structured. Oracle: math/big mod p on the stored limbs (value = limbs*2^-256 mod p); every stored result must be < p. " +
-			"non-trivial = an operand not in {0,1}; History cases: one field element object holds a value, is read through Bytes/Sgn0/IsZero/Equals, is changed by each mutator (Add, Subtract, Multiply, Negate, Invert, CMove 0/1, Set, One, Square, SqrtRatio as receiver, the three parsers, x^((p-3)/4)) and is read again. distinct by the whole case. Plus concurrent batches: 8 goroutines run the operations simultaneously on objects they own, each result judged against the oracle.",
+			"non-trivial = an operand not in {0,1}; History cases: one field element object holds a value, is read through Bytes/Sgn0/IsZero/Equals, is changed by each mutator (Add, Subtract, Multiply, Negate, Invert, CMove 0/1, Set, One, Square, SqrtRatio as receiver, the three parsers) and is read again. distinct by the whole case. Plus concurrent batches: 8 goroutines run the operations simultaneously on objects they own, each result judged against the oracle.",
 		NewCase:  func() any { return &c12Case{} },
 		Generate: c12Generate,
 		Run:      c12Run,
 		Require: func(string) map[string]int64 {
 			return map[string]int64{
-				"op:add": 2000, "op:sub": 2000, "op:mul": 2000, "op:square": 500, "op:neg": 500, "op:invert": 500, "op:sqrtratio": 500, "op:exp": 200,
+				"op:add": 2000, "op:sub": 2000, "op:mul": 2000, "op:square": 500, "op:neg": 500, "op:invert": 500, "op:sqrtratio": 500,
 				"op:parse32": 1000, "op:parse24": 40, "op:wide48": 1000, "op:cmove": 500, "op:equals": 500, "op:bytes": 500,
 				"sqrtratio:qr": 100, "sqrtratio:nqr": 100, "parse32:ge-p": 200, "parse32:lt-p": 200, "invert:0": 1, "class:carry-sum": 300, "class:carry-diff": 300, "alias:out=a": 300, "alias:out=b": 300, "op:move": 300, "via:cmove1": 10, "via:sqrtratio": 10,
 			}
@@ -70,8 +70,8 @@ func c12Generate(c *mon.Ctx) {
 			}
 		}
 
-		// x^((p-3)/4) is an internal helper of sqrt_ratio, only ever called with a fresh output: aliasing is not demanded
-		c.Structured(func() any { return &c12Case{Op: "exp", A: a, Alias: "none", Class: cl} })
+		// x^((p-3)/4) is an unexported helper of sqrt_ratio (only ever called with a fresh output); it is exercised through
+		// SqrtRatio, not directly, so that the harness refers to no unexported identifier of the module
 
 		for j := 0; j < 5; j++ {
 			w := st[(i*11+j*173+5)%len(st)]
@@ -148,6 +148,11 @@ func c12Generate(c *mon.Ctx) {
 		}
 	}
 
+	for _, b48 := range gen.WideResonant(p) {
+		in48 := mon.H(b48)
+		c.Structured(func() any { return &c12Case{Op: "wide48", In: in48, Class: "fold-resonant"} })
+	}
+
 	for d := int64(1); d <= 3; d++ {
 		b48 := make([]byte, 48)
 		new(big.Int).Sub(two384, big.NewInt(d)).FillBytes(b48)
@@ -187,8 +192,8 @@ func c12Generate(c *mon.Ctx) {
 		case 3:
 			return &c12Case{Op: "wide48", In: mon.H(r.Bytes(48)), Class: "random"}
 		case 4:
-			v := gen.Draw(r, p)
-			return &c12Case{Op: "exp", A: hx(v.X), Alias: "none", Class: v.Class}
+			a, b := gen.Draw(r, p), gen.Draw(r, p)
+			return &c12Case{Op: "sqrtratio", A: hx(a.X), B: hx(b.X), Alias: "none", Class: a.Class}
 		}
 
 		var a, b gen.V
@@ -203,7 +208,6 @@ func c12Generate(c *mon.Ctx) {
 }
 
 func c12RunMove(c *mon.Ctx, cs *c12Case) {
-	p := oracle.P
 	from, to := mon.BigH(cs.A), mon.BigH(cs.B)
 	aux := oracle.FAdd(to, big.NewInt(12345))
 
@@ -228,10 +232,6 @@ func c12RunMove(c *mon.Ctx, cs *c12Case) {
 		to = big.NewInt(1)
 	case "square":
 		to = oracle.FSqr(from)
-	case "exp":
-		e := new(big.Int).Sub(p, big.NewInt(3))
-		e.Rsh(e, 2)
-		to = new(big.Int).Exp(from, e, p)
 	case "parse24":
 		to = new(big.Int).Rsh(to, 64)
 	}
@@ -292,8 +292,6 @@ func c12RunMove(c *mon.Ctx, cs *c12Case) {
 			e.One()
 		case "square":
 			e.Square(e)
-		case "exp":
-			e.VExpPMin3Div4(mon.FE(from))
 		case "sqrtratio":
 			// the receiver becomes a root of to^2: either sign is acceptable
 			e.SqrtRatio(mon.FE(oracle.FSqr(to)), mon.FE(big.NewInt(1)))
@@ -438,11 +436,6 @@ func c12Run(c *mon.Ctx, csAny any) {
 
 			out.Invert(*a)
 			checkOut(oracle.FInv0(av), "Invert")
-		case "exp":
-			out.VExpPMin3Div4(a)
-			e := new(big.Int).Sub(p, big.NewInt(3))
-			e.Rsh(e, 2)
-			checkOut(new(big.Int).Exp(av, e, p), "expPMin3Div4")
 		case "set":
 			out.Set(a)
 			checkOut(av, "Set")
